@@ -299,6 +299,59 @@ example : (hClose witWo2 0 [] []).1.isSome := open_writer_fails_at_close witWo2 
 /-- … with ErrCloseSent, the final fragment is never sent, and the wire still ends with the close frame -/
 example : (hClose witWo2 0 [] []).1 = some .closeSent ∧ (hClose witWo2 0 [] []).2.wire = witWo2.wire ∧
     (hClose witWo2 0 [] []).2.wire.drop 264 = [0x88, 0x82, 1, 2, 3, 4, 2, 234] := by decide +kernel
+
+/-! a close frame sent through Conn.write on a connection with traffic behind it -/
+
+/-- the client `witW0` after it sent the text message "hello" (first masking key used, wire holds that frame) -/
+def witW1 : W := (writeMessage witW0 1 [104, 101, 108, 108, 111]).2
+/-- … it is healthy and the message is on the wire -/
+example : witW1.writeErr = none ∧ witW1.wire.length = 11 ∧ witW1.keyIdx = 1 := by decide +kernel
+/-- the close frame 1001 "bye" as WriteControl would build it on `witW1`: masked with the SECOND key 01 02 03 04 -/
+def witClose1 : Bytes := controlFrame false 8 (beBytes 2 1001 ++ [0x62, 0x79, 0x65]) (newKey witW1).1
+example : witClose1 = [0x88, 0x85, 1, 2, 3, 4, 0x03 ^^^ 1, 0xE9 ^^^ 2, 0x62 ^^^ 3, 0x79 ^^^ 4, 0x65 ^^^ 1] := by decide +kernel
+/-- witness for `close_latches_ErrCloseSent`: Conn.write(CloseMessage, deadline 1000000) succeeds -/
+def witClose1_ok : (connWrite witW1 8 1000000 witClose1 []).1 = none := by decide +kernel
+
+/-- non-vacuity of `close_latches_ErrCloseSent`: the hypothesis holds for the healthy client `witW1` and a
+    real masked close frame -/
+example : (connWrite witW1 8 1000000 witClose1 []).2.writeErr = some .closeSent :=
+  close_latches_ErrCloseSent witW1 1000000 witClose1 [] witClose1_ok
+/-- … and the frame really went out: the wire is the text frame followed by the close frame -/
+example : (connWrite witW1 8 1000000 witClose1 []).2.wire = witW1.wire ++ witClose1 := by decide +kernel
+/-- second instance of `close_latches_ErrCloseSent`: the fresh client `witW0`, zero deadline, two buffers
+    (header+key in the first, the masked payload in the second) -/
+example : (connWrite witW0 8 0 (witClose.take 6) (witClose.drop 6)).2.writeErr = some .closeSent :=
+  close_latches_ErrCloseSent witW0 0 (witClose.take 6) (witClose.drop 6) (by decide)
+
+/-- the state after that close -/
+def witWc1 : W := (connWrite witW1 8 1000000 witClose1 []).2
+/-- witness for `requests_fail_with_closeSent`: exactly ErrCloseSent is latched -/
+def witWc1_closeSent : witWc1.writeErr = some .closeSent := by decide +kernel
+
+/-- non-vacuity of `requests_fail_with_closeSent`, first conjunct: WriteMessage(text, "hello") -/
+example : (writeMessage witWc1 1 [104, 101, 108, 108, 111]).1 = some .closeSent ∧
+    (writeMessage witWc1 1 [104, 101, 108, 108, 111]).2.wire = witWc1.wire :=
+  (requests_fail_with_closeSent witWc1 witWc1_closeSent).1 1 [104, 101, 108, 108, 111] (Or.inl rfl)
+/-- second conjunct: NextWriter(binary) -/
+example : ∃ s', nextWriter witWc1 2 = (.error .closeSent, s') ∧ s'.wire = witWc1.wire :=
+  (requests_fail_with_closeSent witWc1 witWc1_closeSent).2.1 2 (Or.inr rfl)
+/-- third conjunct: WriteControl(ping "ping", deadline 5) and a second close frame (zero deadline) -/
+example : (writeControl witWc1 9 [112, 105, 110, 103] 5).1 = some .closeSent ∧
+    (writeControl witWc1 9 [112, 105, 110, 103] 5).2.wire = witWc1.wire :=
+  (requests_fail_with_closeSent witWc1 witWc1_closeSent).2.2.1 9 [112, 105, 110, 103] 5 (Or.inr (Or.inl rfl))
+    (by decide) (by decide)
+example : (writeControl witWc1 8 [3, 232] 0).1 = some .closeSent ∧ (writeControl witWc1 8 [3, 232] 0).2.wire = witWc1.wire :=
+  (requests_fail_with_closeSent witWc1 witWc1_closeSent).2.2.1 8 [3, 232] 0 (Or.inl rfl) (by decide) (by decide)
+/-- fourth conjunct: WritePreparedMessage with the frame image of a masked text "hi" -/
+example : (writePreparedImage witWc1 1 [0x81, 0x82, 5, 6, 7, 8, 0x68 ^^^ 5, 0x69 ^^^ 6]).1 = some .closeSent ∧
+    (writePreparedImage witWc1 1 [0x81, 0x82, 5, 6, 7, 8, 0x68 ^^^ 5, 0x69 ^^^ 6]).2.wire = witWc1.wire :=
+  (requests_fail_with_closeSent witWc1 witWc1_closeSent).2.2.2 1 [0x81, 0x82, 5, 6, 7, 8, 0x68 ^^^ 5, 0x69 ^^^ 6]
+/-- `requests_fail_with_closeSent` also applies to `witWc` (close sent via WriteControl) and to `witWo` (close sent
+    while a message writer was open) -/
+example : (writeMessage witWc 2 [1, 2, 3]).1 = some .closeSent ∧ (writeMessage witWc 2 [1, 2, 3]).2.wire = witWc.wire :=
+  (requests_fail_with_closeSent witWc (by decide)).1 2 [1, 2, 3] (Or.inr rfl)
+example : ∃ s', nextWriter witWo 1 = (.error .closeSent, s') ∧ s'.wire = witWo.wire :=
+  (requests_fail_with_closeSent witWo (by decide +kernel)).2.1 1 (Or.inl rfl)
 end NonVacuity
 
 end WS.Props.C09
